@@ -37,6 +37,12 @@ pub enum Op {
     GetMutOrDefaultWrite(u8),
     /// drain().join(), consuming `n` items (255 = all) and dropping the iterator.
     Drain(u8),
+    /// drain().lend_join(): look the same entity up twice through the lending iterator
+    DrainLendTwice(u8),
+    /// create an entity; it takes over a freed index of the layout (the old handle goes stale)
+    Recreate,
+    /// every handle-taking access through the stale handle of layout position `e`
+    StaleAccess(u8),
     Clear,
     /// non-lending mutable join (lending for kinds without it); writes the
     /// items whose position bit is set in the mask.
@@ -118,6 +124,7 @@ struct Run<'c, T: Kind, U: Kind> {
     /// membership replayed from Inserted/Removed events since registration
     replayed: std::collections::BTreeSet<u32>,
     builder_used: bool,
+    stale: Vec<Option<Entity>>,
     viol: Option<String>,
     tr: u64,
     /// counters: [ops executed, events checked, injected panics]
@@ -175,6 +182,7 @@ impl<'c, T: Kind, U: Kind> Run<'c, T, U> {
             emission_always_on: true,
             replayed: Default::default(),
             builder_used: false,
+            stale: vec![None; n],
             viol: None,
             tr: 0,
             counters: [0; 3],
@@ -224,7 +232,7 @@ impl<'c, T: Kind, U: Kind> Run<'c, T, U> {
                 | Op::EntryOrInsertWith(e) | Op::EntryReplace(e) | Op::EntryOccGet(e) | Op::EntryOccGetMutWrite(e)
                 | Op::EntryOccInsert(e) | Op::EntryOccRemove(e) | Op::GetMutOrDefault(e) | Op::GetMutOrDefaultWrite(e)
                 | Op::DeleteNow(e) | Op::DeleteDeferred(e) | Op::LazyInsert(e) | Op::InsertOther(e) | Op::RestrictOtherMut(e)
-                | Op::ReadOnly(e) => Some(*e),
+                | Op::ReadOnly(e) | Op::DrainLendTwice(e) => Some(*e),
                 _ => None,
             }
         };
@@ -487,6 +495,99 @@ impl<'c, T: Kind, U: Kind> Run<'c, T, U> {
                     self.model.remove(id);
                     exp.insrem.push(ComponentEvent::Removed(*id));
                 }
+            }
+            Op::DrainLendTwice(e) => {
+                let h = self.ents[*e as usize];
+                let id = h.id();
+                let old = self.model.remove(&id);
+                let (first, second) = {
+                    let mut st = self.w.write_storage::<T>();
+                    let ents = self.w.entities();
+                    let mut it = st.drain().lend_join();
+                    let first = it.get(h, &ents).map(|t| t.returned());
+                    // a second request for the same index must not hand anything out again
+                    // (the pinned tree refuses by panicking; refusing with None is fine too)
+                    let second = catch(|| it.get(h, &ents).map(|t| t.returned()));
+                    (first, second)
+                };
+                self.obs_opt(first);
+                if first != old.map(Self::zv) {
+                    fail!(self, "drain: lending drain lookup of {} returned {:?}, map model {:?}", id, first, old);
+                }
+                if let Ok(Some(v)) = second {
+                    fail!(self, "drain: the lending drain handed out a component of {} a second time ({:?})", id, v);
+                }
+                if old.is_some() {
+                    exp.insrem.push(ComponentEvent::Removed(id));
+                }
+            }
+            Op::Recreate => {
+                if self.alive.iter().all(|a| *a) {
+                    return None;
+                }
+                let h = self.w.create_entity().build();
+                match self.ents.iter().position(|o| o.id() == h.id()) {
+                    Some(p) if !self.alive[p] => {
+                        self.stale[p] = Some(self.ents[p]);
+                        self.ents[p] = h;
+                        self.alive[p] = true;
+                    }
+                    _ => {
+                        // a fresh index although a layout index is free: not this property's business
+                        // (C17), but the history cannot continue on the fixed layout
+                        return None;
+                    }
+                }
+            }
+            Op::StaleAccess(e) => {
+                let Some(stale) = self.stale.get(*e as usize).copied().flatten() else { return None };
+                let mut hits: Vec<&'static str> = vec![];
+                {
+                    let mut st = self.w.write_storage::<T>();
+                    if st.get(stale).is_some() {
+                        hits.push("get");
+                    }
+                    if st.contains(stale) {
+                        hits.push("contains");
+                    }
+                    if st.get_mut(stale).is_some() {
+                        hits.push("get_mut");
+                    }
+                    if GenericWriteStorage::get_mut_or_default(&mut st, stale).is_some() {
+                        hits.push("get_mut_or_default");
+                    }
+                    if st.entry(stale).is_ok() {
+                        hits.push("entry");
+                    }
+                    if st.insert(stale, T::make(424242)).is_ok() {
+                        hits.push("insert");
+                    }
+                    if let Some(t) = st.remove(stale) {
+                        t.returned();
+                        hits.push("remove");
+                    }
+                    let ents = self.w.entities();
+                    {
+                        let mut it = (&mut st).lend_join();
+                        if it.get(stale, &ents).is_some() {
+                            hits.push("lend_join.get");
+                        }
+                    }
+                    let mut r = st.restrict_mut();
+                    let mut it = (&mut r).lend_join();
+                    while let Some(mut item) = it.next() {
+                        if item.get_other(stale).is_some() {
+                            hits.push("get_other");
+                        }
+                        if item.get_other_mut(stale).is_some() {
+                            hits.push("get_other_mut");
+                        }
+                    }
+                }
+                if !hits.is_empty() {
+                    fail!(self, "stale-handle: a dead handle {:?} (index reused) was accepted by {:?}", stale, hits);
+                }
+                // nothing accessed, nothing changed: no event of any kind (exp is empty)
             }
             Op::Clear => {
                 self.w.write_storage::<T>().clear();
@@ -911,6 +1012,7 @@ impl<'c, T: Kind, U: Kind> Run<'c, T, U> {
         self.emission.hash(&mut h);
         self.emission_always_on.hash(&mut h);
         self.builder_used.hash(&mut h);
+        self.stale.iter().map(|s| s.map(|e| (e.id(), e.gen().id()))).collect::<Vec<_>>().hash(&mut h);
         self.replayed.hash(&mut h);
         drop(st);
         self.w.entities().verif_snapshot().hash(&mut h);
@@ -948,6 +1050,9 @@ impl<'c, T: Kind, U: Kind> Run<'c, T, U> {
             if p == Prop::C12 || p == Prop::C20 {
                 v.extend([Op::GetMutPeek(e), Op::ReadOnly(e), Op::RestrictOtherMut(e), Op::DeleteNow(e), Op::DeleteDeferred(e)]);
             }
+            if p == Prop::C04 && e == 0 {
+                v.push(Op::DeleteNow(e));
+            }
             if p == Prop::C08 {
                 // entity-level entry points on a fixed subset keeps the graph small:
                 // entity 0 may be deleted deferred, entity 1 immediately, lazy inserts
@@ -962,6 +1067,26 @@ impl<'c, T: Kind, U: Kind> Run<'c, T, U> {
         }
         v.push(Op::Drain(255));
         v.push(Op::Drain(1));
+        if p != Prop::C19 {
+            for e in 0..n {
+                if self.alive[e as usize] && (e == 0 || p != Prop::C12) {
+                    v.push(Op::DrainLendTwice(e));
+                }
+            }
+            if matches!(p, Prop::C12 | Prop::C04 | Prop::C20) {
+                // one stale generation per layout position keeps the graph finite
+                // only layout position 0 ever gets a stale generation (bounded graph)
+                let dead: Vec<usize> = (0..self.alive.len()).filter(|i| !self.alive[*i]).collect();
+                if dead == vec![0] && self.stale[0].is_none() {
+                    v.push(Op::Recreate);
+                }
+                for e in 0..n {
+                    if self.stale[e as usize].is_some() {
+                        v.push(Op::StaleAccess(e));
+                    }
+                }
+            }
+        }
         if p != Prop::C12 && p != Prop::C20 {
             v.push(Op::Clear);
         }
@@ -1456,6 +1581,10 @@ pub fn plan(prop: Prop, thorough: bool) -> Vec<(usize, Cfg)> {
             continue;
         }
         for (li, layout) in layouts.iter().enumerate() {
+            // quick C12: the boundary layout for four representative wrapper/inner pairs only
+            if prop == Prop::C12 && !thorough && li > 0 && !["FVec", "FDense", "DVec", "DHash"].contains(&k.name) {
+                continue;
+            }
             // a teardown panic legitimately leaks the rest of the world (hash map
             // drop has no guard), so keep the default-filled gaps short there
             let layout = if prop == Prop::C19 && k.name.contains("DefVec") && layout.iter().any(|i| *i > 8) {
